@@ -75,15 +75,19 @@ fn start_db(
         Sender<String>,
         Receiver<String>,
     ) = channel(100);
-    let keys_map = disk_ops::load_keys_map_from_disk();
     let is_oplog_valid = disk_ops::is_oplog_valid();
 
-    if is_oplog_valid {
+    // The keys file is only complete while the op-log is marked valid (it is rewritten in place
+    // right before the op-log is marked valid again), a process killed in between leaves a file
+    // that cannot be read: do not touch it when the op-log is going to be discarded anyway
+    let keys_map = if is_oplog_valid {
         log::debug!("All fine with op-log metadafiles");
+        disk_ops::load_keys_map_from_disk()
     } else {
         log::warn!("Nun-db has restarted with op-log in a invalid state, oplog and keys metadafile will be deleted!");
         disk_ops::Oplog::clean_op_log_metadata_files();
-    }
+        std::collections::HashMap::new()
+    };
 
     let dbs = nundb::db_ops::create_init_dbs(
         user.to_string(),
